@@ -94,6 +94,29 @@ def check(ix, rep):
         SS.check_compose(ix, rep, kf, which)
     from sa.rules import memo
     memo.check_offline_memo_renewed(ix, rep, mon)
+    # one interpreter per specification: no caching decorator on the factories, no module- or class-level state in the dense-time offline modules
+    from sa.rules import globals as _G4
+    _G4.fixture_selfcheck(rep)
+    rep.floor('dense-time offline modules scanned for shared state', _G4.run_global(ix, rep, prefix='rtamt.semantics.stl.dense_time.offline') + _G4.run_global(ix, rep, prefix='rtamt.semantics.abstract_dense_time_offline'), 3)
+    # the samples computed with are the samples supplied (no conversion of the elements on entry)
+    from sa.rules import truthy as _te
+    _ne = 0
+    for _m in M.standard_monitors(ix):
+        if _m.kind == 'dense-offline':
+            _de = ix.resolve_method(_m.cls, 'set_variable_to_ast_from_dataset')
+            if _de is None:
+                raise AnalysisError('set_variable_to_ast_from_dataset of %s vanished' % _m.kind)
+            rep.analysed(_de)
+            _ne += _te.check_entry_verbatim(ix, rep, _de, _m.kind)
+    rep.floor('data-entry stores', _ne, 1)
+    # a robustness value is a number, never a flag: in the dense-time offline code no value emitted in a sample (or anything it is computed from)
+    # is used for its truth value
+    from sa.rules import truthy as _tr
+    _fs = []
+    for _m in sorted(ix.modules.values(), key=lambda m_: m_.name):
+        if '.dense_time.offline' in _m.name and 'antlr' not in _m.name:
+            _fs += list(_m.functions.values()) + [g_ for c_ in _m.classes.values() for g_ in c_.methods.values()]
+    rep.floor('dense-time functions that handle robustness values', _tr.check_dense_values(ix, rep, _fs, 'dense-offline'), 10)
     from sa.rules import truthy as _truthy
     _truthy.check_exact_comparisons(ix, rep, prefixes=('rtamt/semantics/stl/dense_time/', 'rtamt/semantics/arithmetic/dense_time/', 'rtamt/semantics/iastl/dense_time/'))
     # 4. bound conversion and side conditions
